@@ -100,7 +100,8 @@ func resolve(sel Selector, subject ipld.Node, at []string) (ipld.Node, error) {
 				if seg.Optional() {
 					// build an empty list
 					n, _ := qp.BuildList(basicnode.Prototype.Any, 0, func(_ datamodel.ListAssembler) {})
-					return n, nil
+					cur = n
+					continue
 				}
 				return nil, newResolutionError(fmt.Sprintf("can not iterate over kind: %s", kindString(cur)), at)
 
@@ -127,7 +128,7 @@ func resolve(sel Selector, subject ipld.Node, at []string) (ipld.Node, error) {
 				if err != nil {
 					panic("should never happen")
 				}
-				return nd, nil
+				cur = nd
 
 			default:
 				return nil, newResolutionError(fmt.Sprintf("can not iterate over kind: %s", kindString(cur)), at)
@@ -138,7 +139,11 @@ func resolve(sel Selector, subject ipld.Node, at []string) (ipld.Node, error) {
 			switch {
 			case cur == nil:
 				err := newResolutionError(fmt.Sprintf("can not access field: %s on kind: %s", seg.Field(), kindString(cur)), at)
-				return nil, errIfNotOptional(seg, err)
+				if err := errIfNotOptional(seg, err); err != nil {
+					return nil, err
+				}
+				cur = nil
+				continue
 
 			case cur.Kind() == datamodel.Kind_Map:
 				n, err := cur.LookupByString(seg.Field())
@@ -155,13 +160,21 @@ func resolve(sel Selector, subject ipld.Node, at []string) (ipld.Node, error) {
 
 			default:
 				err := newResolutionError(fmt.Sprintf("can not access field: %s on kind: %s", seg.Field(), kindString(cur)), at)
-				return nil, errIfNotOptional(seg, err)
+				if err := errIfNotOptional(seg, err); err != nil {
+					return nil, err
+				}
+				cur = nil
+				continue
 			}
 
 		case len(seg.Slice()) > 0:
 			if cur == nil {
 				err := newResolutionError(fmt.Sprintf("can not slice on kind: %s", kindString(cur)), at)
-				return nil, errIfNotOptional(seg, err)
+				if err := errIfNotOptional(seg, err); err != nil {
+					return nil, err
+				}
+				cur = nil
+				continue
 			}
 
 			slice := seg.Slice()
@@ -206,7 +219,11 @@ func resolve(sel Selector, subject ipld.Node, at []string) (ipld.Node, error) {
 
 			if cur == nil {
 				err := newResolutionError(fmt.Sprintf("can not access index: %d on kind: %s", seg.Index(), kindString(cur)), at)
-				return nil, errIfNotOptional(seg, err)
+				if err := errIfNotOptional(seg, err); err != nil {
+					return nil, err
+				}
+				cur = nil
+				continue
 			}
 
 			idx := seg.Index()
@@ -217,7 +234,11 @@ func resolve(sel Selector, subject ipld.Node, at []string) (ipld.Node, error) {
 				}
 				if idx < 0 || idx >= int(cur.Length()) {
 					err := newResolutionError(fmt.Sprintf("index out of bounds: %d", seg.Index()), at)
-					return nil, errIfNotOptional(seg, err)
+					if err := errIfNotOptional(seg, err); err != nil {
+						return nil, err
+					}
+					cur = nil
+					continue
 				}
 				cur, _ = cur.LookupByIndex(int64(idx))
 
@@ -228,7 +249,11 @@ func resolve(sel Selector, subject ipld.Node, at []string) (ipld.Node, error) {
 				}
 				if idx < 0 || idx >= len(b) {
 					err := newResolutionError(fmt.Sprintf("index %d out of bounds for bytes of length %d", seg.Index(), len(b)), at)
-					return nil, errIfNotOptional(seg, err)
+					if err := errIfNotOptional(seg, err); err != nil {
+						return nil, err
+					}
+					cur = nil
+					continue
 				}
 				cur = basicnode.NewInt(int64(b[idx]))
 
